@@ -30,6 +30,15 @@ for p in seeds:
     res[sid] = {"property": own, "caught_by_own_check": own in caught, "violations": {k: v["rules"] for k, v in hits.items() if v["exit"] == 1},
                 "analysis_errors": {k: v["rules"] for k, v in hits.items() if v["exit"] == 2}}
     print(f"{sid} ({own}): own={'YES' if own in caught else 'no '} viol={ {k: v['rules'] for k, v in hits.items() if v['exit']==1} } err={ {k: v['rules'] for k, v in hits.items() if v['exit']==2} }", flush=True)
-json.dump(res, open(os.path.join(VERIF, "seeded", "MATRIX.json"), "w"), indent=1)
+mp = os.path.join(VERIF, "seeded", "MATRIX.json")
+allres = json.load(open(mp)) if os.path.exists(mp) and only else {}
+allres.update(res)
+json.dump(dict(sorted(allres.items())), open(mp, "w"), indent=1)
+for sid, v in res.items():  # keep each seed's meta in step with the matrix
+    mf = os.path.join(VERIF, "seeded", sid, "meta.json")
+    d = json.load(open(mf))
+    d["caught_by"] = sorted(v["violations"])
+    d["caught_by_rules"] = v["violations"]
+    json.dump(d, open(mf, "w"), indent=1)
 n = len(res); own = sum(1 for v in res.values() if v["caught_by_own_check"]); anyc = sum(1 for v in res.values() if v["violations"])
 print(f"{n} seeds: {own} caught by the check of the property they target, {anyc} caught by some check")
